@@ -88,6 +88,12 @@ def mk_hybrid(it, loader, kind, t=(True, 32)):
         return it.call(irkit.C(loader, "Call"), ["c_call", conc_vt(loader, (False, 32)), ["get_npc", "pkt"]], {}), []
     if kind == "void-call":
         return it.call(irkit.C(loader, "Call"), ["c_call", conc_vt(loader, (False, 32), G.VOID), ["STORE_SLOT_CANCELLED", "pkt", irkit.mk_var(it, "slot", (False, 8))]], {}), []
+    if kind == "stmt-expr-if":
+        # ({ if (x) { s; } v; }): the statement of the statement-expression is itself a conditional
+        inner = c05.mk_effect(it, loader, "Assignment", "inner")
+        st = it.call(irkit.C(loader, "Branch"), ["branch", irkit.mk_operand(it, "Variable", (True, 32), "x"), inner, it.call(irkit.C(loader, "Empty"), ["empty"], {})], {})
+        v = irkit.mk_var(it, "val", t)
+        return it.call(irkit.C(loader, "GCCStmtDeclExpr"), ["gcc_expr", st, v, v.fields["value_type"]], {}), [st, v]
     if kind == "stmt-expr":
         st = c05.mk_effect(it, loader, "Assignment", "stmt")
         v = irkit.mk_var(it, "val", t)
@@ -375,7 +381,7 @@ def gen_selected(loader, check, replay_on=True):
                          irkit.C(loader, "GCCStmtDeclExpr").methods["update_stmt"])
     Br, Emp = irkit.C(loader, "Branch"), irkit.C(loader, "Empty")
     for arm in ("then", "else"):
-        for hk in ("stmt-expr", "postinc", "call"):
+        for hk in ("stmt-expr", "stmt-expr-if", "postinc", "call"):
             inst = f"{hk} in the {arm} arm"
             check.instances_declared += 1
 
@@ -399,7 +405,7 @@ def gen_selected(loader, check, replay_on=True):
                     continue
                 h = p.state["h"]
                 rp = ("c06.source", lambda mdl, hk=hk, arm=arm: {"case": f"cond-{hk}-{arm}"}) if replay_on else None
-                if hk == "stmt-expr":
+                if hk in ("stmt-expr", "stmt-expr-if"):
                     st = h.fields["stmt"]
                     ok = isinstance(st, Obj) and st.cls is Br and st.fields["cond"] is p.state["c"]
                     if ok:
@@ -412,7 +418,7 @@ def gen_selected(loader, check, replay_on=True):
                     eo = h.fields.get("effect_ops") or []
                     check.ob("conditional_expr#the-guarded-statement-is-also-the-hybrid's-operand (update_stmt)", inst, pc,
                              bool(eo) and eo[0] is st and not any(x is p.state["stmt0"] for x in eo), detail=f"effect_ops {eo!r}",
-                             replay=("c06.source", lambda mdl, arm=arm: {"case": f"gcc-order-{arm}"}) if replay_on else None)
+                             replay=("c06.source", lambda mdl, arm=arm, hk=hk: {"case": f"gcc-order-{arm}", "if_stmt": hk == "stmt-expr-if"}) if replay_on else None)
                 else:
                     # a postfix operator / call in an arm must equally be evaluated only when the arm is selected
                     seq = list(pending(p.state["t"]).values())
@@ -679,7 +685,13 @@ def replay_source(a):
         return bad, f"{src}: increments emitted {len(incs)} (expected {want}); undeclared names used: {undeclared}"
     if case.startswith("gcc-order-"):
         arm = case.rsplit("-", 1)[1]
-        src = "{ int32_t i = 0; RdV = (RsV == RtV) ? ({ i = 5; i; }) : 7; }" if arm == "then" else "{ int32_t i = 0; RdV = (RsV == RtV) ? 7 : ({ i = 5; i; }); }"
+        body = "({ if (RuV) { i = 5; } i; })" if a.get("if_stmt") else "({ i = 5; i; })"
+        src = "{ int32_t i = 0; RdV = (RsV == RtV) ? %s : 7; }" % body if arm == "then" else "{ int32_t i = 0; RdV = (RsV == RtV) ? 7 : %s; }" % body
+        if a.get("if_stmt"):
+            txt0 = c.compile_c_stmt(src)
+            g = [l for l in txt0.splitlines() if "BRANCH(" in l and "op_EQ" in l]
+            if not g:
+                return True, f"{src}: no BRANCH guarded by the ?: condition is emitted; the hybrid keeps the unguarded statement"
         txt = c.compile_c_stmt(src)
         lines = [l for l in txt.splitlines() if l.startswith("RzILOp")]
         names = [l.split("*")[1].split(" ")[0] for l in lines]
@@ -737,13 +749,19 @@ def replay_source(a):
     if case.startswith("cond-"):
         _, hk, arm = case.split("-", 2)
         if hk == "stmt":
-            hk, arm = "stmt-expr", arm.split("-")[-1]
+            hk, arm = ("stmt-expr-if" if "expr-if" in case else "stmt-expr"), arm.split("-")[-1]
         src = {"postinc": "{ int32_t i = 0; RdV = RsV ? i++ : 7; RtV = i; }", "call": "{ RdV = RsV ? clz32(RtV) : 7; }",
-               "stmt-expr": "{ int32_t i = 0; RdV = RsV ? ({ i = 5; i; }) : 7; }"}[hk] if arm == "then" else \
+               "stmt-expr": "{ int32_t i = 0; RdV = RsV ? ({ i = 5; i; }) : 7; }",
+               "stmt-expr-if": "{ int32_t i = 0; RdV = RsV ? ({ if (RtV) { i = 5; } i; }) : 7; }"}[hk] if arm == "then" else \
               {"postinc": "{ int32_t i = 0; RdV = RsV ? 7 : i++; RtV = i; }", "call": "{ RdV = RsV ? 7 : clz32(RtV); }",
-               "stmt-expr": "{ int32_t i = 0; RdV = RsV ? 7 : ({ i = 5; i; }); }"}[hk]
+               "stmt-expr": "{ int32_t i = 0; RdV = RsV ? 7 : ({ i = 5; i; }); }",
+               "stmt-expr-if": "{ int32_t i = 0; RdV = RsV ? 7 : ({ if (RtV) { i = 5; } i; }); }"}[hk]
         txt = c.compile_c_stmt(src)
         guarded = [l for l in txt.splitlines() if "BRANCH(" in l]
+        if hk == "stmt-expr-if":
+            # the inner if is one BRANCH; the ?: guard around the whole statement must be a second one
+            has_guard = any(re.search(r"BRANCH\(NON_ZERO\((DUP\()?Rs\)", g) for g in guarded)
+            return not has_guard, f"{src}: BRANCH lines {[g.strip()[:90] for g in guarded]}: {'one' if has_guard else 'none'} of them is guarded by the ?: condition Rs"
         if hk == "stmt-expr" and guarded:
             # the statement of the arm must be on the arm's own side of the BRANCH: BRANCH(c, stmt, EMPTY) for then, BRANCH(c, EMPTY, stmt) for else
             g = guarded[0]
